@@ -53,10 +53,19 @@ func (f *Ash) Call(s *slip.Scope, args slip.List, depth int) (result slip.Object
 	sh := int(shift)
 	switch ti := args[0].(type) {
 	case slip.Fixnum:
-		if sh < 0 {
-			result = slip.Fixnum(uint64(ti) >> -sh)
-		} else {
-			result = slip.Fixnum(uint64(ti) << sh)
+		switch {
+		case sh <= -64:
+			// Everything is shifted out, what is left is the sign.
+			result = ti >> 63
+		case sh < 0:
+			result = ti >> uint(-sh)
+		default:
+			if shifted := ti << uint(sh); sh < 63 && shifted>>uint(sh) == ti {
+				result = shifted
+			} else {
+				var z big.Int
+				result = (*slip.Bignum)(z.Lsh(big.NewInt(int64(ti)), uint(sh)))
+			}
 		}
 	case slip.Octet:
 		if sh < 0 {
